@@ -101,6 +101,9 @@ def include_part(chk):
         # a sample through the command line, typed from inside the project directory
         import random
         pick = random.Random(chk.seed + 17).sample(scs, min(len(scs), 160 if chk.tier == 'quick' else 1500))
+        # every configuration in which an included file includes the main file again goes through the command line too (how the main
+        # file's path is spelled must not decide whether the second inclusion is noticed)
+        pick += [s for s in scs if s.get('backedge') and s not in pick][:200 if chk.tier == 'quick' else 5000]
         for sc, r in zip(pick, runner.pmap(eval_include_cli, pick)):
             chk.traces += 1
             if r is not None:
